@@ -5,3 +5,4 @@ git -C /repo apply "$(realpath $d)/patch.diff" || exit 2
 (cd /repo && GOFLAGS=-mod=mod GOPROXY=off GOSUMDB=off go test -vet=off -count=1 ./... 2>&1 | grep -v "no test files" | tr '\n' ' '); echo
 for p in "$@"; do ./check $p quick 2>&1 | head -4; done
 git -C /repo checkout -- .; git -C /repo clean -fdq
+./regen.sh   # the generated facts again describe the unchanged tree
